@@ -2,9 +2,9 @@
 #![allow(dead_code, static_mut_refs, unused_imports)]
 use super::*;
 
-#[path = "/verif/kani/libc_model.rs"]
+#[path = "libc_model.rs"]
 mod lm;
-#[path = "/verif/kani/signal_spec.rs"]
+#[path = "signal_spec.rs"]
 mod spec;
 
 static mut SIG: c_int = 0;
